@@ -405,8 +405,8 @@ func init() {
 
 	register(&Rule{
 		ID: "C19-d", Template: "pairing (create / cleanup)",
-		Doc: "Every spill file the sorter creates (call of writeChunk in AddRow) is followed on the success path by registering a cleanup closure that both closes and removes that file, and Sorter.Close calls every registered closure.",
-		Min: 2,
+		Doc: "Every spill file the sorter creates (call of writeChunk in AddRow) is followed on the success path by registering a cleanup closure that both closes and removes that file, Sorter.Close calls every registered closure, and no function of pkg/sorter truncates or replaces the list of cleanups without first running all of them (Reset on a sorter that has spilled).",
+		Min: 3,
 		Run: func(p *Program, r *RuleResult) error {
 			wc, err := p.MustFuncs("pkg/sorter.writeChunk")
 			if err != nil {
@@ -532,6 +532,66 @@ func init() {
 				r.ok(key, p.Rel(closeFn.Pos()), what)
 			} else {
 				r.bad(key, p.Rel(closeFn.Pos()), what, "no loop in Close that calls the elements of Sorter.cleanups")
+			}
+			// nobody forgets a registered cleanup: a store that truncates or replaces
+			// Sorter.cleanups is preceded, on every path, by a loop that runs them all
+			for _, fn := range fns {
+				n := 0
+				for _, b := range fn.Blocks {
+					for _, in := range b.Instrs {
+						st, ok := in.(*ssa.Store)
+						if !ok {
+							continue
+						}
+						fa, ok := st.Addr.(*ssa.FieldAddr)
+						if !ok || structField(fa.X.Type(), fa.Field) != cleanups {
+							continue
+						}
+						if c, ok := st.Val.(*ssa.Call); ok && isBuiltin(c, "append") && len(c.Call.Args) > 0 && derivedFromField(c.Call.Args[0], cleanups) {
+							continue // registration
+						}
+						key := fmt.Sprintf("%s|cleanups-dropped#%d", funcName(fn), n)
+						n++
+						what := "registered cleanups are run before the list is truncated or replaced"
+						okRun := false
+						why := "no loop that calls the elements of Sorter.cleanups precedes the store"
+						for _, b2 := range fn.Blocks {
+							for _, in2 := range b2.Instrs {
+								c, ok := in2.(*ssa.Call)
+								if !ok || c.Call.IsInvoke() || c.Call.StaticCallee() != nil || !derivedFromField(c.Call.Value, cleanups) {
+									continue
+								}
+								h := loopHeaderOf(b2)
+								for h != nil && !loopBody(h)[b2] {
+									h = nil
+								}
+								if h == nil {
+									continue
+								}
+								early := false
+								for e := range loopExitEdges(h) {
+									if e.from != h {
+										early = true
+									}
+								}
+								if early {
+									why = "the loop that runs the cleanups can be left early"
+									continue
+								}
+								if _, reach := reachAfter(fn, nil, st, nil, map[ssa.Instruction]bool{h.Instrs[0]: true}); reach {
+									why = "the store is reachable on a path that skips the loop running the cleanups"
+									continue
+								}
+								okRun = true
+							}
+						}
+						if okRun {
+							r.ok(key, p.Rel(st.Pos()), what)
+						} else {
+							r.bad(key, p.Rel(st.Pos()), what, why+": the spill files registered so far stay open and on disk for good")
+						}
+					}
+				}
 			}
 			return nil
 		},
